@@ -365,11 +365,15 @@ func runC17(r *ev.Run) {
 	if r.Thorough() && r.Replay == "" {
 		// time budget: every universe at the quick depth first, then the deeper level
 		for ui, u := range unis {
-			runC17Universe(r, ui, u, 2, prefixes)
+			runC17Universe(r, ui, u, 2, prefixes, 0)
 		}
 	}
 	for ui, u := range unis {
-		runC17Universe(r, ui, u, depth, prefixes)
+		above := 0
+		if r.Thorough() && r.Replay == "" {
+			above = 2 // states up to depth 2 were counted by the first pass
+		}
+		runC17Universe(r, ui, u, depth, prefixes, above)
 	}
 	r.Set("depth", depth)
 	r.Set("prefixes_epochs", prefixes)
@@ -380,7 +384,7 @@ func runC17(r *ev.Run) {
 	r.Finish()
 }
 
-func runC17Universe(r *ev.Run, ui int, u *c17Universe, depth int, prefixes []int) {
+func runC17Universe(r *ev.Run, ui int, u *c17Universe, depth int, prefixes []int, countAbove int) {
 	w, alpha, byName, wrongSigner := u.w, u.alpha, u.byName, u.wrongSigner
 	specs := []rspec{{Name: "P/badger", Path: chain.PathPropose, Backend: "badger"}, {Name: "P1/pathbadger", Path: chain.PathPropose, Backend: "pathbadger", Ident: 1}}
 	run := func(prefix int, h []int) (key, what string) {
@@ -464,6 +468,7 @@ func runC17Universe(r *ev.Run, ui int, u *c17Universe, depth int, prefixes []int
 	for _, prefix := range prefixes {
 		frontier := [][]int{{}}
 		seen := map[string]bool{}
+		statesBefore := 0
 		var mu sync.Mutex
 		for level := 1; level <= depth && len(frontier) > 0; level++ {
 			var jobs [][]int
@@ -508,7 +513,10 @@ func runC17Universe(r *ev.Run, ui int, u *c17Universe, depth int, prefixes []int
 				}
 			})
 			frontier = next
+			if level == countAbove {
+				statesBefore = len(seen)
+			}
 		}
-		r.Add("states", int64(len(seen)))
+		r.Add("states", int64(len(seen)-statesBefore))
 	}
 }
